@@ -38,6 +38,13 @@ TRUSTED = ["harness generator of U+"]
 PRELUDE = """
 import collections, collections.abc, dataclasses, datetime, decimal, enum, typing
 T = typing.TypeVar("T"); B = typing.TypeVar("B", bound=int); Cn = typing.TypeVar("Cn", int, str)
+import typing_extensions
+# TypeVars made by the backport (genuine typing.TypeVar instances that carry a PEP 696 default slot), and bounds that are not classes
+XT = typing_extensions.TypeVar("XT"); XB = typing_extensions.TypeVar("XB", bound=int); XD = typing_extensions.TypeVar("XD", default=int)
+UB = typing.TypeVar("UB", bound=typing.Union[int, str]); LB = typing.TypeVar("LB", bound=typing.List[int])
+@dataclasses.dataclass
+class XBox(typing.Generic[XT]):
+    item: XT = None
 class G(typing.Generic[T]):
     x: T
     def __init__(self, x): self.x = x
@@ -140,11 +147,13 @@ LEAVES = ["int", "str", "typing.Any", "object", "list", "dict", "tuple", "set", 
           # recursive user classes (members of U): every container of them builds, whatever anonymous type their fields share with it
           "Tree", "Chain", "TNode", "DTree",
           # bare classes of classes: unresolvable positions like type[X]
-          "type", "typing.Type", "Meta", "abc.ABCMeta"]
+          "type", "typing.Type", "Meta", "abc.ABCMeta",
+          # TypeVars of the typing_extensions backport; TypeVars bound to a union / a parametrised generic
+          "XT", "XB", "XD", "XBox", "XBox[int]", "UB", "LB"]
 UNARY = ["list[{0}]", "typing.List[{0}]", "tuple[{0}, ...]", "dict[str, {0}]", "typing.Optional[{0}]", "typing.Sequence[{0}]",
          "collections.abc.Mapping[str, {0}]", "frozenset[{0}]", "G[{0}]"]
 BINARY = ["tuple[{0}, {1}]", "typing.Union[{0}, {1}]", "dict[{0}, {1}]"]
-PASS = {"typing.Any", "object", "T", "typing.Callable[[int], str]", "typing.Callable[..., typing.Any]", "collections.abc.Callable",
+PASS = {"typing.Any", "object", "T", "XT", "typing.Callable[[int], str]", "typing.Callable[..., typing.Any]", "collections.abc.Callable",
         "type[int]", "typing.Type[DC]", "type", "typing.Type", "Meta", "abc.ABCMeta"}
 KNOWN = {"tuple[()]": "emptyTupleAnnotation"}
 
